@@ -44,7 +44,7 @@ RULE = (
     "Non-trivial = >=2 executions, a failed job and a sub-second job timestamp."
 )
 ASSUMPTIONS = [
-    "SQLite only (the postgres branches of the migrations are not run); TZ=UTC, so SQLite's 'utc' modifier must not move an instant",
+    "SQLite only (the postgres branches of the migrations are not run); the row-by-row comparison runs under TZ=UTC, so SQLite's 'utc' modifier must not move an instant; a second upgrade of the same file under a fixed-offset zone checks that job times move by exactly that offset",
     "alembic_version is the migration pointer, not recorded data: it is excluded from the row comparison",
     "rows are written the way SQLAlchemy's SQLite dialect stores them (DATETIME as 'YYYY-MM-DD HH:MM:SS.ffffff', booleans 0/1, JSON tag values as normalized strings)",
     "task names/namespaces are valid identifiers (the 2.1 backfill instantiates redun.Task from them)",
@@ -174,6 +174,7 @@ def graphs(version: str):
     return st.fixed_dictionaries({
         "v": st.just(version),
         "via": st.sampled_from(["migrate", "load"]),
+        "tz": st.sampled_from([None, None, "JST-9", "NPT-5:45", "XST+3"]),
         "tasks": st.lists(st.fixed_dictionaries({"name": _names, "ns": _nss, "src": _srcs, "lonely": st.booleans()}),
                           min_size=1, max_size=3),
         "values": st.lists(_vals, min_size=2, max_size=6),
@@ -805,6 +806,79 @@ def evaluate(ctx: Ctx, case: dict) -> tuple:
         shutil.rmtree(d, ignore_errors=True)
 
 
+TZS = {"JST-9": dt.timedelta(hours=9), "NPT-5:45": dt.timedelta(hours=5, minutes=45), "XST+3": dt.timedelta(hours=-3)}
+
+
+def evaluate_tz(ctx: Ctx, case: dict, tz: str) -> list:
+    """The same populated file upgraded by a process whose local time zone is not UTC (fixed-offset
+    zones, no DST). Pre-3.4 files hold naive LOCAL job times and the 3.3 -> 3.4 step re-expresses them
+    in UTC: every job's start_time and end_time (when set) must denote the same instant afterwards,
+    i.e. move by exactly the zone's offset — finished and unfinished jobs alike — and nothing else in
+    the job table may change; files that start at 3.4 or later must not move at all."""
+    import time as _time
+
+    quiet()
+    harness_tasks()
+    start = version_of(case["v"])
+    tpl = template(ctx, start)
+    d = work_dir(ctx, "tzcase")
+    path = os.path.join(d, "redun.db")
+    problems: list = []
+    b = None
+    old_tz = os.environ.get("TZ")
+    try:
+        shutil.copyfile(tpl, path)
+        db = Db(path)
+        try:
+            populate(db, case)
+            before = db.dump()
+        finally:
+            db.close()
+        os.environ["TZ"] = tz
+        _time.tzset()
+        try:
+            b = new_backend(path)
+            with ctx.no_raise(f"upgrade-under-{tz}", case):
+                b.load()
+            dbx.close_backend(b)
+            b = None
+        finally:
+            if old_tz is None:
+                os.environ.pop("TZ", None)
+            else:
+                os.environ["TZ"] = old_tz
+            _time.tzset()
+        db = Db(path)
+        try:
+            after = db.dump()
+        finally:
+            db.close()
+        converts = (start.major, start.minor) < (3, 4)
+        off = TZS[tz] if converts else dt.timedelta(0)
+        rows = {r["id"]: r for r in after.get("job", [])}
+        for r in before.get("job", []):
+            n = rows.get(r["id"])
+            if n is None:
+                problems.append(Violation("tz:row-lost:job", f"job {r['id']} missing after upgrading under TZ={tz}", case))
+                break
+            for col in ("start_time", "end_time"):
+                ia, ib = instant(r.get(col)), instant(n.get(col))
+                if ia is None and ib is None:
+                    continue
+                if ia is None or ib is None or ib != ia - off:
+                    kind = "unfinished-job" if r.get("end_time") is None else "finished-job"
+                    problems.append(Violation(f"tz:instant-changed:job.{col}:{kind}",
+                                              f"upgrade from {case['v']} under TZ={tz}: job {r['id']} {col} {r.get(col)!r} (local) "
+                                              f"became {n.get(col)!r}; the same instant in UTC is {ia - off if ia else None} "
+                                              f"(end_time of this job: {r.get('end_time')!r})", case))
+                    return problems
+        return problems
+    finally:
+        if b is not None:
+            dbx.close_backend(b)
+        shutil.rmtree(d, ignore_errors=True)
+
+
 def settle(ctx: Ctx, problems: list, absorb: bool) -> None:
     unknown = [p for p in problems if not ctx.is_known(p.key)]
     if unknown:
@@ -821,6 +895,8 @@ def run_case(ctx: Ctx, case: dict) -> None:
     w = None
     try:
         problems, w = evaluate(ctx, case)
+        if case.get("tz"):
+            problems = list(problems) + evaluate_tz(ctx, case, case["tz"])
     finally:
         labels = [f"start:{case['v']}", f"via:{case['via']}"]
         nt = False
@@ -842,4 +918,6 @@ def check(ctx: Ctx) -> None:
 
 def replay(ctx: Ctx, case) -> None:
     problems, _ = evaluate(ctx, case)
+    if case.get("tz"):
+        problems = list(problems) + evaluate_tz(ctx, case, case["tz"])
     settle(ctx, problems, absorb=False)
